@@ -21,6 +21,33 @@ impl Prop for P {
             let cap = *rng.pick(&[0usize, 0, 1, 3, 7, 100]);
             cases.push(format!("fmt {} {} {} {} {}", ty, g.0, g.1, cap, fmt_ops(&map_ops(&with_values(&ks, &vals)))));
         }
+        // sets whose builder saw keys more than once (a repeated add is a no-op): the footer's key count must
+        // count distinct keys - in particular the empty key, which has its own branch in the builder
+        for i in 0..(if tier == Tier::Quick { 60 } else { 400 }) {
+            let mut ks = random_keyset(rng, 12, 4);
+            if i % 2 == 0 && ks.first().map(|k| !k.is_empty()).unwrap_or(true) {
+                ks.insert(0, vec![]);
+            }
+            let mut ops = vec![];
+            for k in &ks {
+                let reps = if k.is_empty() { 1 + rng.below(3) } else if rng.chance(1, 3) { 2 } else { 1 };
+                for _ in 0..reps {
+                    ops.push(Op::Add(k.clone()));
+                }
+            }
+            let g = if rng.chance(1, 2) { geoms[0] } else { *rng.pick(&geoms) };
+            cases.push(format!("fmt 0 {} {} {} {}", g.0, g.1, *rng.pick(&[0usize, 1, 5]), fmt_ops(&ops)));
+            stats.bump("sets_with_repeated_adds");
+        }
+        for reps in 1..=4usize {
+            // only the empty key, added `reps` times; and followed by one more key
+            let only: Vec<Op> = (0..reps).map(|_| Op::Add(vec![])).collect();
+            cases.push(format!("fmt 0 {} {} 0 {}", geoms[0].0, geoms[0].1, fmt_ops(&only)));
+            let mut more = only.clone();
+            more.push(Op::Add(b"a".to_vec()));
+            cases.push(format!("fmt 0 {} {} 0 {}", geoms[0].0, geoms[0].1, fmt_ops(&more)));
+            stats.bump("empty_key_added_repeatedly");
+        }
         // address deltas of 2 bytes (files > 256 bytes between a node and its target) and 3 bytes (thorough)
         let sizes: &[usize] = if tier == Tier::Thorough { &[40, 400, 9000] } else { &[40, 400] };
         for &n in sizes {
